@@ -146,14 +146,14 @@ func OwnRevsDomain() *Domain {
 //	      4 revision slots: 1 + 3 owners(self,none,other) * 3 label shapes ; 2 pods: absent | rev label in 4 (t0.0 t1.0 t2.0 t3.0) x (healthy, terminating)
 func HistoryDomain() *Domain {
 	per := 1 + 3*3
-	dims := []int{4, 5, 3, 3, 2, 3, per, per, per, per, 9, 9}
+	dims := []int{5, 5, 3, 3, 2, 3, per, per, per, per, 9, 9}
 	d := &Domain{Name: "history(4 revisions, 2 pods)", Dims: dims}
 	d.Make = func(ix []int) *Scenario {
 		sc := &Scenario{Dom: ix}
 		s := &sc.Set
 		s.Name = "foo"
 		s.Policy = "Parallel"
-		s.Tmpl = fmt.Sprintf("t%d", ix[0])
+		s.Tmpl = []string{"t0", "t1", "t2", "t3", "t5"}[ix[0]] // (t5: template labels beyond the selector, never listed -> create)
 		s.CurRev = []string{"t0.0", "t1.0", "t2.0", "", "gone"}[ix[1]]
 		s.HistLimit = int32(ix[2])
 		s.Collisions = int32(ix[4])
@@ -224,8 +224,8 @@ func HistoryDomain() *Domain {
 //	dims: nclaims(0..2), policy, replicas(1..3), slots mask(3 bits), which claims pre-exist (mask over 2 templates x 3 ordinals = 6 bits),
 //	      per ordinal (3): absent | healthy | healthy with bad identity | healthy with bad storage | failed
 func ClaimsDomain() *Domain {
-	dims := []int{3, 2, 3, 8, 64, 5, 5, 5, 2, 64}
-	d := &Domain{Name: "claims(3 ordinals, <=2 claim templates, lagging claim cache)", Dims: dims}
+	dims := []int{3, 2, 3, 8, 64, 5, 5, 5, 2, 64, 8}
+	d := &Domain{Name: "claims(3 ordinals, <=2 claim templates, lagging claim cache, terminating claims)", Dims: dims}
 	d.Make = func(ix []int) *Scenario {
 		sc := &Scenario{Dom: ix}
 		s := &sc.Set
@@ -242,6 +242,9 @@ func ClaimsDomain() *Domain {
 			for o := 0; o < 3; o++ {
 				if ix[4]&(1<<(c*3+o)) != 0 {
 					sc.PVCs = append(sc.PVCs, fmt.Sprintf("c%d-foo-%d", c, o))
+					if len(ix) > 10 && c == 0 && ix[10]&(1<<o) != 0 { // the retained claim of this ordinal is being deleted
+						sc.PVCsTerminating = append(sc.PVCsTerminating, fmt.Sprintf("c%d-foo-%d", c, o))
+					}
 				} else if len(ix) > 9 && ix[9]&(1<<(c*3+o)) != 0 {
 					sc.PVCsApiOnly = append(sc.PVCsApiOnly, fmt.Sprintf("c%d-foo-%d", c, o)) // in the API, not yet in the cache
 				}
